@@ -24,6 +24,8 @@ Definition diag_waited_goroutines_always_started := Eval vm_compute in unstarted
 Print diag_waited_goroutines_always_started.
 Definition size_launches := Eval vm_compute in length launches.
 Print size_launches.
+Definition diag_untracked_shared_fields := Eval vm_compute in map show_shared (untracked_shared shared_exemptions shared_untracked).
+Print diag_untracked_shared_fields.
 Definition size_waits := Eval vm_compute in length waits.
 Print size_waits.
 Definition size_covers := Eval vm_compute in length covers.
